@@ -269,18 +269,38 @@ def parse_cbmc_json(out):
     return results, status, '\n'.join(msgs)
 
 
+def _flatten(prefix, v, out):
+    if not isinstance(v, dict):
+        return
+    if 'members' in v:
+        for m in v['members']:
+            _flatten(prefix + '.' + m.get('name', '?'), m.get('value'), out)
+    elif 'elements' in v:
+        for e in v['elements'][:64]:
+            _flatten('%s[%sl]' % (prefix, e.get('index')), e.get('value'), out)
+    else:
+        out.append((prefix, v.get('data', v.get('name'))))
+
+
 def trace_inputs(trace):
-    """compact assignment list from a cbmc json trace: name -> last value, in order"""
+    """compact assignment list from a cbmc json trace: (function, lhs, value) in order; struct/array values are flattened"""
     vals = []
     for st in trace or []:
         if st.get('stepType') == 'assignment' and not st.get('hidden', False):
             lhs = st.get('lhs', '')
             v = st.get('value', {})
-            val = v.get('data', v.get('name'))
             if lhs.startswith('__CPROVER') or 'contracts' in lhs or lhs.startswith('return_value'):
                 continue
             fn = st.get('sourceLocation', {}).get('function', '')
-            vals.append((fn, lhs, val))
+            if isinstance(v, dict) and ('members' in v or 'elements' in v):
+                flat = []
+                _flatten(lhs, v, flat)
+                if len(flat) <= 80:
+                    vals.extend((fn, a, b) for a, b in flat)
+                else:
+                    vals.append((fn, lhs, v.get('name')))
+            else:
+                vals.append((fn, lhs, v.get('data', v.get('name'))))
     return vals
 
 
